@@ -39,16 +39,17 @@ func c16Resolve(c *Ctx, px string) *c16Fns {
 	hl := `call<strings.LastIndex>(p0, "1")`
 	lower := "call<strings.ToLower>(p0)"
 	data := "ext#0(call<*>(load(global<repo/pkg/bech32.charset>), slice(" + lower + ", bin<+>(" + hl + ", 1), none)))"
-	for _, ce := range b.CondEdges() {
-		if !ce.Taken {
+	vpat := "call<*>(slice(" + lower + ", 0, " + hl + "), " + data + ")"
+	for _, ce := range deepEdges(c, b) {
+		if !ce.Taken || out.verify != nil {
 			continue
 		}
-		if _, ok := ana.Match("call<*>(slice("+lower+", 0, "+hl+"), "+data+")", ce.Lit); ok {
+		if _, ok := ana.Match(vpat, ce.Lit); ok {
 			out.verify = calleeOf(ce.Lit)
-			// gate on every success return
+			// gate on every success return (in Decode or through the helper that verifies)
 			for _, e := range ana.Exits(dec) {
 				if !e.Panic && b.Of(e.Results[2], e.Instr).Is("nil") {
-					r.Check(mustPass(dec, e.Instr.Block(), []ana.Edge{ce.Edge}), px+".verify-gate.decode", c.ipos(e.Instr), "every success return of Decode passes verify(lower hrp, all decoded symbols incl. the last six) == true")
+					r.Check(c.passes(b, e.Instr.Block(), vpat), px+".verify-gate.decode", c.ipos(e.Instr), "every success return of Decode passes verify(lower hrp, all decoded symbols incl. the last six) == true")
 				}
 			}
 		}
